@@ -37,6 +37,7 @@ r("C01", "empty result is success", RC, "    free(*key_files);\n    *key_files =
 r("C01", "empty main file skipped", RC, "       if (error == ECONF_SUCCESS)\n       {", "       if (error == ECONF_SUCCESS && key_file->length > 0)\n       {")
 r("C01", "revert D12", L, "  if (key_file == NULL ||\n      ((config_name == NULL || strlen(config_name) == 0) &&\n       (project == NULL || strlen(project) == 0)))\n    return ECONF_ARGUMENT_IS_NULL_VALUE;\n", "")
 r("C01", "run layer from /etc", L, '      snprintf(run_dir, sizeof(run_dir), "%s%s", (*key_file)->root_prefix, DEFAULT_RUN_SUBDIR);', '      snprintf(run_dir, sizeof(run_dir), "%s%s", (*key_file)->root_prefix, DEFAULT_ETC_SUBDIR);')
+r("C01", "project missing in the /run layer under a root prefix", L, '      snprintf(run_dir, sizeof(run_dir), "%s/%s/%s", (*key_file)->root_prefix, DEFAULT_RUN_SUBDIR, project);', '      snprintf(run_dir, sizeof(run_dir), "%s/%s", (*key_file)->root_prefix, DEFAULT_RUN_SUBDIR);')
 # ---- C03 ----------------------------------------------------------------------------------------------------------------
 r("C03", "shared key", H, "copied_fe.key = strdup(fe.key);", "copied_fe.key = fe.key;")
 r("C03", "copy forgets a field", H, "  if (fe.comment_after_value)\n    copied_fe.comment_after_value = strdup(fe.comment_after_value);\n  else\n    copied_fe.comment_after_value = NULL;  ", "")
